@@ -58,7 +58,7 @@ func readImports(r Reader, cat Catalog) ([]SharedSymbolTable, error) {
 			return nil, err
 		}
 
-		if val.LocalSID == 3 {
+		if val != nil && val.LocalSID == 3 {
 			// Special case that imports the current local symbol table.
 			if r.SymbolTable() == nil || r.SymbolTable() == V1SystemSymbolTable {
 				return nil, nil
@@ -121,7 +121,9 @@ func readImport(r Reader, cat Catalog) (SharedSymbolTable, error) {
 				if err != nil {
 					return nil, err
 				}
-				name = *val
+				if val != nil {
+					name = *val
+				}
 			}
 		case "version":
 			if r.Type() == IntType {
@@ -129,7 +131,9 @@ func readImport(r Reader, cat Catalog) (SharedSymbolTable, error) {
 				if err != nil {
 					return nil, err
 				}
-				version = *val
+				if val != nil {
+					version = *val
+				}
 			}
 		case "max_id":
 			if r.Type() == IntType {
